@@ -39,7 +39,7 @@ def dosage_permutations(gamete_dosage: A[iN, 1], parent_dosage: A[iN, 1]) -> int
     requires(len(gamete_dosage) <= 6, len(parent_dosage) >= len(gamete_dosage))
     requires(forall(0, len(gamete_dosage), lambda i: 0 <= parent_dosage[i] and parent_dosage[i] <= 12 and 0 <= gamete_dosage[i] and gamete_dosage[i] <= 12))
     # C17: the number of ways the gamete's dosage can be drawn from the parent's copies without replacement
-    ensures(result == BPROD(parent_dosage, gamete_dosage, len(gamete_dosage)))
+    ensures(result == BPROD(parent_dosage, gamete_dosage, len(gamete_dosage)), result >= 0)
     with entry():
         unfold(BPROD(parent_dosage, gamete_dosage, 0), pow924(0))
         compute(pow924(6))
@@ -86,3 +86,17 @@ def set_initial_dosage(ploidy: int, constraint: A[iN, 1], out: A[iN, 1]):
             unfold(ISUM(out, 0, i + 1))
     with exit_():
         lemma_isum_pointwise_le(out, constraint, 0, len(out))
+
+
+@contract("mchap.pedigree.prior.gamete_log_pmf", machine_ints=True, props=["C17"], dead_branches=["if gamete_lambda > 0.0 @0 then", "if gamete_ploidy != 2 @1 then", "if gamete_ploidy != 2 @1 else"])
+def gamete_log_pmf(gamete_dose: A[iN, 1], gamete_ploidy: int, parent_dose: A[iN, 1], parent_ploidy: int, gamete_lambda: float) -> float:
+    # proved for gametes without double reduction (lambda == 0); <= 6 alleles x <= 12 copies
+    requires(gamete_lambda == 0, len(gamete_dose) <= 6, len(parent_dose) >= len(gamete_dose), 0 <= gamete_ploidy, gamete_ploidy <= parent_ploidy, parent_ploidy <= 12)
+    requires(forall(0, len(gamete_dose), lambda i: 0 <= parent_dose[i] and parent_dose[i] <= 12 and 0 <= gamete_dose[i] and gamete_dose[i] <= 12))
+    # C17: the multivariate hypergeometric probability of drawing the gamete from the parent's copies
+    ensures(not isnan(result), exp(result) == BPROD(parent_dose, gamete_dose, len(gamete_dose)) / binom(parent_ploidy, gamete_ploidy))
+    with entry():
+        lemma_binom_le_924(parent_ploidy, gamete_ploidy)
+        lemma_binom_pos(parent_ploidy, gamete_ploidy)
+    with before_stmt("return np.log(prob)"):
+        ax_exp_log(prob)
